@@ -487,6 +487,8 @@ func deathClass(s string) string {
 	switch {
 	case strings.Contains(s, "out of memory"), strings.Contains(s, "cannot allocate memory"):
 		return "out-of-memory"
+	case strings.Contains(s, "WATCHDOG"):
+		return "hang"
 	case strings.Contains(s, "timeout"):
 		return "timeout"
 	case strings.Contains(s, "concurrent map"):
